@@ -241,6 +241,9 @@ for n in (0, 1, 2, 16, 17):
                                 "LDB_CORRUPTION; else <db>/<name>",
                            bounds="CURRENT content: %d arbitrary bytes; read fails or not with any code" % n))
 
+from obl.vset_common import reuse_manifest_obls
+OBLIGATIONS += reuse_manifest_obls("g")
+
 META = {
     "level": "model_checking",
     "level_text": "Bounded model checking (CBMC) of lcdb's own coding.h / version_edit.c / filename.c / util/env.c / "
